@@ -153,6 +153,20 @@ def build_router(case: dict, trace: Trace, loop: vclock.VLoop, fn_tag: str = "",
         ev = trace.extra.setdefault("done_events", {}).get(e.id)
         if ev is not None:
             ev.set()
+        if case.get("read_results_early"):
+            # the producer looks at Job.result through the Job object it enqueued, shortly after every execution (not only once at
+            # the end): each look must show the bucket as it is then
+            job = trace.job_objs.get(e.id)
+
+            async def look() -> None:
+                try:
+                    r = await job.result
+                except Exception as x:  # noqa: BLE001
+                    r = x
+                trace.extra.setdefault("early_results", []).append((e.id, e.n, loop.time(), r))
+
+            if job is not None and trace.conn is not None and trace.conn.results_bucket_broker is not None:
+                loop.call_later(0.03, lambda: asyncio.ensure_future(look()))
 
     async def perform(e: Exec, m: Any) -> Any:
         o = e.outcome or {"k": "ret", "v": None}
